@@ -167,8 +167,29 @@ func (t *Tracker) Take() []string {
 	t.mu.Lock()
 	v := t.Violations
 	t.Violations = nil
+	// The map holds a strong reference to every pooled object it has seen (so that an address cannot be recycled
+	// under it). sync.Pool drops its contents at every second GC, so over a long run the map would keep every
+	// object ever pooled alive: 1 GB a minute in a thorough C17 shard. Objects that sit in their pool are forgotten
+	// once the map is large; an object seen again after that starts a new history.
+	if len(t.objs) > 4000 {
+		for o, st := range t.objs {
+			if !st.owned && !st.inHandle {
+				delete(t.objs, o)
+			}
+		}
+	}
 	t.mu.Unlock()
 	return v
+}
+
+// Forget drops every object the tracker knows. For lanes that run one connection at a time: between two cases nothing
+// of the previous connection is alive, but objects that were never released (the request context of a handler that
+// outlived its connection is deliberately not recycled) would otherwise stay referenced from here for ever.
+func (t *Tracker) Forget() {
+	t.mu.Lock()
+	t.objs = map[interface{}]*state{}
+	t.poisoned = nil
+	t.mu.Unlock()
 }
 
 // Heal removes the duplicates a double release left in the (process-global)
